@@ -283,7 +283,12 @@ pub fn source(p: &Prog) -> String {
         let mut ps: Vec<String> = f.xparams.iter().map(|(x, en)| format!("{x}: {}", ty_name(en))).collect();
         ps.extend(f.params.iter().map(|(x, t)| format!("{x}: {}", t.name())));
         let ret = f.xret.as_ref().map(|en| ty_name(en)).unwrap_or_else(|| f.ret.name().to_string());
-        let _ = write!(o, "fn {}({}) -> {} ", f.name, ps.join(", "), ret);
+        // a function that returns nothing (`xret` = "unit"): no return type in the source
+        if f.xret.as_deref() == Some("unit") {
+            let _ = write!(o, "fn {}({}) ", f.name, ps.join(", "));
+        } else {
+            let _ = write!(o, "fn {}({}) -> {} ", f.name, ps.join(", "), ret);
+        }
         src_blk(&f.body, &mut o);
         o.push('\n');
     }
